@@ -49,6 +49,7 @@ type Stats struct {
 	Decls    int
 	AltDict  int
 	AltTag   int
+	AltIdent int // predeclared names and built-in function calls through their own constructs
 }
 
 func NewStats() *Stats {
@@ -178,6 +179,13 @@ func (t *tr) expr(e ast.Expr) *N {
 		if p, ok := t.dot[e]; ok {
 			return recipe.Qual(p, e.Name)
 		}
+		if c, ok := identConstructs[e.Name]; ok && t.o.Alt != nil && t.o.Alt.Choose(2) == 1 {
+			// the documented element for a predeclared name: Int(), Error(), Nil(), True() ...
+			if t.o.Stats != nil {
+				t.o.Stats.AltIdent++
+			}
+			return S().C(c)
+		}
 		return recipe.Id(e.Name)
 	case *ast.Ellipsis:
 		if e.Elt == nil {
@@ -237,6 +245,17 @@ func (t *tr) expr(e ast.Expr) *N {
 			args[len(args)-1] = args[len(args)-1].C("Op", "...")
 		}
 		t.arity("Call", len(args))
+		if id, ok := e.Fun.(*ast.Ident); ok && t.o.Alt != nil {
+			if _, isDot := t.dot[id]; !isDot {
+				if c, ok := callConstructs[id.Name]; ok && callFits(c, len(args)) && t.o.Alt.Choose(2) == 1 {
+					// the documented element for a built-in function: Append(...), Len(x), Make(...) ...
+					if t.o.Stats != nil {
+						t.o.Stats.AltIdent++
+					}
+					return S().C(c, args)
+				}
+			}
+		}
 		return t.expr(e.Fun).C("Call", args)
 	case *ast.StarExpr:
 		return recipe.Op("*").Add(t.expr(e.X))
@@ -415,6 +434,50 @@ func (t *tr) tag(b *ast.BasicLit) *N {
 		}
 	}
 	return t.lit(b)
+}
+
+// identConstructs: predeclared names that have a construct of their own (the table is the
+// harness's own reading of the documentation, not jennifer's).
+var identConstructs = map[string]string{
+	"bool": "Bool", "byte": "Byte", "complex64": "Complex64", "complex128": "Complex128", "error": "Error",
+	"float32": "Float32", "float64": "Float64", "int": "Int", "int8": "Int8", "int16": "Int16", "int32": "Int32", "int64": "Int64",
+	"rune": "Rune", "string": "String", "uint": "Uint", "uint8": "Uint8", "uint16": "Uint16", "uint32": "Uint32", "uint64": "Uint64",
+	"uintptr": "Uintptr", "true": "True", "false": "False", "iota": "Iota", "nil": "Nil", "err": "Err", "any": "Any", "comparable": "Comparable",
+}
+
+// callConstructs: built-in functions that have a construct of their own.
+var callConstructs = map[string]string{
+	"append": "Append", "cap": "Cap", "clear": "Clear", "close": "Close", "complex": "Complex", "copy": "Copy", "delete": "Delete",
+	"imag": "Imag", "len": "Len", "make": "Make", "max": "Max", "min": "Min", "new": "New", "panic": "Panic", "print": "Print",
+	"println": "Println", "real": "Real", "recover": "Recover",
+}
+
+var sigs = func() map[string]recipe.Sig {
+	m := map[string]recipe.Sig{}
+	for _, s := range recipe.Constructs() {
+		m[s.Name] = s
+	}
+	return m
+}()
+
+// callFits: the construct takes n Code arguments (variadic, or exactly n).
+func callFits(construct string, n int) bool {
+	s, ok := sigs[construct]
+	if !ok {
+		return false
+	}
+	fixed := 0
+	for _, p := range s.Params {
+		switch p {
+		case recipe.PCodes:
+			return true
+		case recipe.PCode:
+			fixed++
+		default:
+			return false
+		}
+	}
+	return fixed == n
 }
 
 // parseTag splits a conventional struct tag into pairs, and reports ok only
